@@ -10,6 +10,7 @@ import (
 	"net/http/httptest"
 	"os"
 	"path/filepath"
+	"strings"
 
 	"github.com/DemoHn/Zn/pkg/exec"
 	"github.com/DemoHn/Zn/pkg/server"
@@ -22,6 +23,7 @@ type httpRepeatCase struct {
 	Headers [][]string `json:"headers"`
 	Src     string     `json:"src"`
 	N       int        `json:"n"`
+	Body    string     `json:"body"` // when set: POST with this application/json body
 }
 
 func handleHTTPRepeat(raw json.RawMessage) interface{} {
@@ -43,6 +45,10 @@ func handleHTTPRepeat(raw json.RawMessage) interface{} {
 	var firsts []string
 	for i := 0; i < c.N; i++ {
 		req := httptest.NewRequest(http.MethodGet, c.Target, nil)
+		if c.Body != "" {
+			req = httptest.NewRequest(http.MethodPost, c.Target, strings.NewReader(c.Body))
+			req.Header.Set("Content-Type", "application/json")
+		}
 		for _, kv := range c.Headers {
 			req.Header[kv[0]] = append(req.Header[kv[0]], kv[1]) // raw names: no canonicalisation
 		}
